@@ -421,6 +421,11 @@ def evaluate(c, ctx: Ctx = None):
             # a user renders, edits, renders again: every rendering is evaluated before the first edit and
             # again between edits, so that anything remembered from an earlier rendering would show
             render_everything(db)
+            from .sqlcommon import refused_calls
+            if not refused_calls(db):       # calls the library refuses leave no trace (if one is accepted: C09's business)
+                if ctx is not None:
+                    ctx.extra['refused_call_accepted'] = ctx.extra.get('refused_call_accepted', 0) + 1
+                continue
             for k, e in enumerate(script):
                 lab = apply_edit(s, db, tuple(e), k)
                 if lab:
